@@ -1317,7 +1317,9 @@ CHECKS = {
                 e1=[e1_smcrun],
                 extra=lambda v, t, s: dict(__import__("e3_initialdraw").replay(v, t, s, "C10"), **reload_route(v, t, s))),
     "C11": dict(corpus=lambda t, s, r: corpus_resume(t, s, r)
-                + [dict(x, id="f" + x["id"]) for x in corpus_file(t, s, r) if x["params"]["cfg"].get("ctx")][: (40 if t == "quick" else 600)],
+                # (minipcn kernel only: the emcee kernel keeps a private random state that no checkpoint carries)
+                + [dict(x, id="f" + x["id"]) for x in corpus_file(t, s, r)
+                   if x["params"]["cfg"].get("ctx") and x["params"]["cfg"].get("sampler") == "minipcn_smc"][: (40 if t == "quick" else 600)],
                 e1=[e1_smcrun]),
     "C12": dict(corpus=lambda t, s, r: corpus_file(t, s, r) + [dict(x, id="r" + x["id"]) for x in corpus_resume(t, s, r)][: (150 if t == "quick" else 3000)],
                 e1=[e1_smcrun], extra=e3_blob),
